@@ -33,7 +33,7 @@ ASSUMPTIONS = [
     "the task body and lightweight tasks of the universe only record their calls",
 ]
 MIN_CLASSES = {
-    "quick": {"second-instance-same-store": 500, "equal-distinct-pre-tasks": 25, "route:instance": 1500, "route:params": 1000, "cycle": 400, "shared": 1000, "pre-task": 300, "init-task": 150, "shared-pre-task": 40},
+    "quick": {"second-instance-same-store": 500, "equal-distinct-pre-tasks": 25, "route:instance": 1500, "route:params": 1000, "cycle": 300, "shared": 1000, "pre-task": 300, "init-task": 150, "shared-pre-task": 40},
     "thorough": {"cycle": 4000, "shared-pre-task": 400},
 }
 MAX_NODES = {"quick": 6, "thorough": 10}
